@@ -257,6 +257,10 @@ def run_hyp(desc):
             fl |= F.EXTMATCH
         render = (lambda s: A.render(s)) if ext else (lambda s: A.render_plain(A.flatten_ext(s)))
         pats = [render(s) for s in incs] + ([raw_inc] if raw_inc else [])
+        if raw_inc and raw_inc[:1] in '!-' and data.draw(st.booleans()):
+            # only exclusions: the inclusion is the implicit NEGATEALL default (or nothing)
+            pats = [raw_inc] + raw_excs[:1]
+            fl |= F.NEGATE | (F.NEGATEALL if data.draw(st.booleans()) else 0)
         excl = ([render(s) for s in excs] if excs else []) + raw_excs
         excl = excl or None
         draw_int = lambda lo, hi: data.draw(st.integers(lo, hi))
@@ -270,6 +274,8 @@ def run_hyp(desc):
                     names.add('x/' + g)
                     names.add(g + '/')
         names |= {'!test', '!a', '-a', '(a)', 'test', '!', '-', '.a', '!.a', 'b', '(', '#', '?', 'x', ':'}
+        if pathmode:
+            names |= {'keep/', 'a/', 'a/b/', 'x', 'a/.', 'd/..'}
         names.discard('')
         plain_single = len(pats) == 1 and excl is None and not (fl & (F.SPLIT | F.BRACE | F.NEGATE | F.RAWCHARS | G.GLOBTILDE))
         asts = None
